@@ -286,7 +286,7 @@ func runC13(tier string, _ []string) int {
 		time.Local = time.FixedZone("verif-11", -11*3600)
 	}
 	c.Extra("process_time_zone", time.Local.String())
-	c.SetRule("per case a fresh instance with a real Rule client (client.NewManager + NewRuleClient) and a PRNG rule: 1-4 conditions mixing point conditions (number > < = !=, on/off, text = != contains; node / type / key filters) and schedule conditions (windows placed around the real UTC now: active, inactive, wrap-around; weekday and date filters), 0-3 set-value actions and 0-2 inactive actions with targets inside and outside the watched subtree; then 30-150 acknowledged batches from matching and non-matching nodes, types and keys with values at and around every threshold (+-eps, +-0, +-Inf) (a third of the points carry timestamps hours behind or ahead of the previous ones) and triggers forced through foreign points to the rule node; the process runs in a time zone whose date differs from the UTC date; about one step in ten edits a condition of the running rule (date list grows / shrinks, weekday switched, threshold or text changed), the model follows the rule.configPoints events. Monitor: the verif hook sites rule.process / rule.send / rule.batchDone give the batches in the order the rule really processed them; a reference model of docs/user/rules.md is stepped over that sequence and after every batch compares condition states, rule state and the points the rule emitted; at settled points (marker batches through both input paths) the store content (active flags, action flags, target points with the rule as origin) must equal the model. distinct = (condition kinds/operators present, number of conditions, state transitions seen)")
+	c.SetRule("per case a fresh instance with a real Rule client (client.NewManager + NewRuleClient) and a PRNG rule: 1-4 conditions mixing point conditions (number > < = !=, on/off, text = != contains; node / type / key filters) and schedule conditions (windows placed around the real UTC now: active, inactive, wrap-around; weekday and date filters), 0-3 set-value actions and 0-2 inactive actions with targets inside and outside the watched subtree; then 30-150 acknowledged batches from matching and non-matching nodes, types and keys with values at and around every threshold (+-eps, +-0, +-Inf) (a third of the points carry timestamps hours behind or ahead of the previous ones) and triggers forced through foreign points to the rule node; the process runs in a time zone whose date differs from the UTC date; about one step in ten edits a condition of the running rule (date list grows / shrinks, weekday switched, threshold or text changed), the model follows the rule.configPoints events. Monitor: the verif hook sites rule.process / rule.send / rule.batchDone give the batches in the order the rule really processed them; a tap on the subjects the rule subscribes to shows which batches were delivered (each must be processed, in that order); a reference model of docs/user/rules.md is stepped over the processed sequence and after every batch compares condition states, rule state and the points the rule emitted; at settled points (marker batches through both input paths) the store content (active flags, action flags, target points with the rule as origin) must equal the model. distinct = (condition kinds/operators present, number of conditions, state transitions seen)")
 	c.Assume("action executions not associated with a change of rule state are tolerated for trigger batches (configuration changes re-run the current list today); NaN inputs are not generated; condition point types are disjoint from action point types so that the rule's own output never re-enters its conditions")
 	nRules := c.N(40, 800)
 	wd := c.NewWatchdog()
@@ -478,6 +478,16 @@ func runC13(tier string, _ []string) int {
 			}
 		}()
 
+		// what the rule's own subscription is sent: node-point rebroadcasts one level below its parent, in the
+		// order the store published them (the same order for every subscriber of the store's connection)
+		upTap, err := vlib.NewTap(nc, "up."+P+".*")
+		if err != nil {
+			c.Inconclusive(err.Error())
+			return
+		}
+		defer upTap.Close()
+		var tapped []vlib.TapMsg
+		tapChecked, tapOffset := 0, -1
 		witness := func(extra map[string]any) map[string]any {
 			var evs []string
 			for _, e := range mon.from(0) {
@@ -606,6 +616,66 @@ func runC13(tier string, _ []string) int {
 			}
 		}
 
+		// every batch the bus delivered below the rule's parent must have been processed by the rule, in
+		// that order (the model above only sees what the rule reports it processed)
+		finalTap := false
+		checkTap := func() {
+			if !ok {
+				return
+			}
+			tapped = append(tapped, upTap.Drain()...)
+			var processed []rEvent
+			for _, e := range mon.from(0) {
+				if e.Kind == "process" && !(len(e.Points) == 1 && e.Points[0].Type == data.PointTypeTrigger) {
+					processed = append(processed, e)
+				}
+			}
+			if tapOffset < 0 {
+				// align: the rule's subscription starts later than the tap; its first processed batch is
+				// somewhere in what the tap has seen
+				if len(processed) == 0 {
+					return
+				}
+				for k, m := range tapped {
+					parts := strings.Split(m.Subject, ".")
+					pts, err := data.PbDecodePoints(m.Raw)
+					if err == nil && len(parts) == 3 && parts[2] == processed[0].Node && pointsDiff(pts, processed[0].Points) == "" {
+						tapOffset, tapChecked = k, k
+						break
+					}
+				}
+				if tapOffset < 0 {
+					return
+				}
+			}
+			for ; tapChecked < len(tapped); tapChecked++ {
+				m := tapped[tapChecked]
+				parts := strings.Split(m.Subject, ".")
+				if len(parts) != 3 {
+					continue
+				}
+				pts, err := data.PbDecodePoints(m.Raw)
+				if err != nil {
+					continue
+				}
+				if tapChecked-tapOffset >= len(processed) {
+					if !finalTap {
+						return // the rule may still be working on the tail; judged at the next settled point
+					}
+					tapChecked = len(tapped)
+					c.Violate("rule:delivered-batch-never-processed", fmt.Sprintf("a batch for node %s (%d points, first type %q, origin %q) was rebroadcast below the rule's parent but the rule never processed it", parts[2], len(pts), pts[0].Type, pts[0].Origin), witness(map[string]any{"batch": witnessPoints(pts)}))
+					ok = false
+					return
+				}
+				pe := processed[tapChecked-tapOffset]
+				if pe.Node != parts[2] || pointsDiff(pts, pe.Points) != "" {
+					c.Violate("rule:delivered-batch-never-processed", fmt.Sprintf("the %d-th batch delivered below the rule's parent (node %s, first type %q, origin %q) is not the %d-th batch the rule processed (node %s)", tapChecked+1, parts[2], pts[0].Type, pts[0].Origin, tapChecked+1, pe.Node), witness(map[string]any{"batch": witnessPoints(pts)}))
+					ok = false
+					return
+				}
+				c.Count("delivered_batches_matched_with_processed", 1)
+			}
+		}
 		// ---- settle: marker batches through both input paths until the rule emits nothing more
 		markerN := 0
 		started := false
@@ -670,6 +740,7 @@ func runC13(tier string, _ []string) int {
 			return
 		}
 		consume()
+		checkTap()
 		if !ok {
 			return
 		}
@@ -715,6 +786,7 @@ func runC13(tier string, _ []string) int {
 					return
 				}
 				consume()
+				checkTap()
 				if !ok {
 					return
 				}
@@ -765,6 +837,7 @@ func runC13(tier string, _ []string) int {
 						return
 					}
 					consume()
+					checkTap()
 					if !ok {
 						return
 					}
@@ -846,6 +919,7 @@ func runC13(tier string, _ []string) int {
 						return
 					}
 					consume()
+					checkTap()
 				}
 				continue
 			}
@@ -872,6 +946,7 @@ func runC13(tier string, _ []string) int {
 					return
 				}
 				consume()
+				checkTap()
 			}
 		}
 		if !ok {
@@ -882,6 +957,12 @@ func runC13(tier string, _ []string) int {
 			return
 		}
 		consume()
+		checkTap()
+		if !ok {
+			return
+		}
+		finalTap = true
+		checkTap()
 		if !ok {
 			return
 		}
